@@ -4,8 +4,14 @@
 From Bifrost.model Require Import Base TestDecoding Parse.
 From Bifrost.proofs Require Import ParseProofs ParseRoundtrip.
 
-(* ---- totality: ANY byte string, no bound.  No Go slice expression of the state machine is out
-        of range (Panic), the loop terminates within len+2 iterations (OutOfFuel). ---- *)
+(* ---- totality: ANY byte string, no bound.  No Go slice or index expression of the state
+        machine is out of range (Panic) — including message[startStr] and message[startStr+1]
+        of the bit-string fix ced041a — and the loop terminates within len+2 iterations
+        (OutOfFuel).  This is also ALL that is claimed for inputs test_decoding cannot print, in
+        particular a token that begins with B' without being a bit literal (e.g. an unquoted
+        B'x y' or B'p'q'r'): whenever a value token ends a quoted part and starts with B', the
+        B and the quote after it are dropped together with the last byte and the rest is
+        reported Quoted (C09_total_b_prefix_example); a result or an error, never a panic. ---- *)
 Theorem C09_total : forall s, parse_full s <> Panic /\ parse_full s <> OutOfFuel.
 Proof. exact parse_full_never_panics. Qed.
 Print Assumptions C09_total.
@@ -14,30 +20,23 @@ Theorem C09_total_result : forall s, (exists r, parse_full s = Ok r) \/ parse_fu
 Proof. exact parse_full_total. Qed.
 Print Assumptions C09_total_result.
 
-(* ---- round trip.  FULL statement (refuted below by bit strings):
-          forall c, WF c = true -> exists r, parse_full (print c) = Ok r /\ accepts c r = true
-        where [accepts] lets a BIT/VARBIT value come back either as the datum (Quoted) or as
-        the raw literal B'..' (unquoted).
-        Proved: the same for every change without a bit-string value, over the WHOLE grammar:
+(* ---- round trip, over the WHOLE grammar of test_decoding's default output:
         BEGIN/COMMIT; INSERT/UPDATE/DELETE with or without old-key / new-tuple sections and
         (no-tuple-data); TRUNCATE of any list of relations with any flags; ANY schema/table/
         column identifiers (byte strings, quote_identifier decides the quoting); ANY type string
         accepted by [type_ok] (brackets outside double quotes closed by the next ']', nesting
         depth <= 1, quoted parts closed) — which includes everything format_type_be prints
         (C09_types_printable); values null / unchanged-toast-datum / unquoted output without
-        space, quote, NUL / ANY quoted text.
-        WF besides type_ok and the unquoted-value condition: the LAST printed tuple is not
-        empty (zero-column relation: see C09_roundtrip_empty_tuple_refuted). ---- *)
-Theorem C09_roundtrip_partial : forall c,
-  WF c = true -> no_bit c = true -> parse_full (print c) = Ok (expected c).
-Proof. exact roundtrip_nobit. Qed.
+        space, quote, NUL / bit strings B'..' whose digits contain no quote (decoded to the
+        digits, Quoted; finding F5 fixed by ced041a) / ANY quoted text.
+        The ONLY exclusion (hence "partial"): WF requires the LAST printed tuple to have at
+        least one column.  A change of a relation without live columns prints nothing after
+        the operation and is rejected (finding F5b, C09_roundtrip_empty_tuple_refuted); the
+        full statement  forall c, WF' c -> parse_full (print c) = Ok (expected c)  with WF'
+        lacking that condition is therefore false. ---- *)
+Theorem C09_roundtrip_partial : forall c, WF c = true -> parse_full (print c) = Ok (expected c).
+Proof. exact roundtrip. Qed.
 Print Assumptions C09_roundtrip_partial.
-
-(* the partial theorem in the shape of the full statement *)
-Corollary C09_roundtrip_partial_accepts : forall c,
-  WF c = true -> no_bit c = true -> exists r, parse_full (print c) = Ok r /\ accepts c r = true.
-Proof. exact roundtrip_accepts. Qed.
-Print Assumptions C09_roundtrip_partial_accepts.
 
 (* every type name format_type_be can print meets WF's condition on type strings *)
 Theorem C09_types_printable : forall t, pgtype_ok t = true -> type_ok (format_type t) = true.
@@ -50,25 +49,26 @@ Theorem C09_expected_is_column_list : forall t,
 Proof. intros t H. exact (exp_cols_distinct t [] H). Qed.
 Print Assumptions C09_expected_is_column_list.
 
-(* ---- finding F5: a bit string literal B'1010' is scanned as a quoted value whose first and
-        last bytes are stripped: value "'1010", Quoted = true — neither the datum nor the
-        literal.  The full statement is false. ---- *)
+(* ---- finding F5 (fixed by ced041a): B'1010' used to decode to "'1010"; regression witness ---- *)
 Definition f5_change : change :=
   CInsert "public" "t" (Some [mkCol "b" "bit varying" (VBit "1010")]).
 
-Theorem C09_roundtrip_refuted :
+Example C09_bit_regression :
   WF f5_change = true /\
   print f5_change = "table public.t: INSERT: b[bit varying]:B'1010'" /\
-  exists r, parse_full (print f5_change) = Ok r /\
-            pr_cols r = [("b", mkCV "'1010" "bit varying" true)] /\
-            accepts f5_change r = false.
-Proof.
-  split; [reflexivity|]. split; [reflexivity|].
-  eexists. split; [vm_compute; reflexivity|]. split; reflexivity.
-Qed.
-Print Assumptions C09_roundtrip_refuted.
+  parse_full (print f5_change) =
+    Ok (mkPR "" "public.t" "INSERT" false [("b", mkCV "1010" "bit varying" true)] []).
+Proof. repeat split; vm_compute; reflexivity. Qed.
 
-(* ---- second deviation: a change of a relation without live columns prints nothing after the
+(* an unquoted token starting with B' that is no bit literal (not printable by test_decoding) *)
+Example C09_total_b_prefix_example :
+  parse_full "table public.t: INSERT: a[text]:B'x y' b[text]:B'' c[text]:Bx'1' d[text]:B'p'q'r'" =
+    Ok (mkPR "" "public.t" "INSERT" false
+          [("a", mkCV "x y" "text" true); ("b", mkCV "" "text" true);
+           ("c", mkCV "x'1" "text" true); ("d", mkCV "p'q'r" "text" true)] []).
+Proof. vm_compute. reflexivity. Qed.
+
+(* ---- finding F5b (known): a change of a relation without live columns prints nothing after the
         operation ("table public.t: INSERT:") and is REJECTED; hence WF's non-empty condition ---- *)
 Theorem C09_roundtrip_empty_tuple_refuted :
   print (CInsert "public" "t" (Some [])) = "table public.t: INSERT:" /\
@@ -79,7 +79,7 @@ Print Assumptions C09_roundtrip_empty_tuple_refuted.
 (* ---- non-vacuity ---- *)
 (* an UPDATE with keyword-quoted relation, old key, quoted column name containing brackets,
    colon and a doubled quote, array-of-quoted-type, text with quotes/brackets/newline, null,
-   unchanged-toast-datum: satisfies WF and no_bit, and decodes to [expected] *)
+   unchanged-toast-datum, bit string: satisfies WF, and decodes to [expected] *)
 Definition ex_update : change :=
   CUpdate "My Schema" "user"
     (Some [mkCol "id" "integer" (VRaw "7"); mkCol "old-key" "text" (VText "k: 'v'")])
@@ -87,12 +87,13 @@ Definition ex_update : change :=
            mkCol "a[1]: ""x""" """My]Type""[]" (VText "it's ]: [x] 'q'''");
            mkCol "note" "character varying" VNull;
            mkCol "big" "public.""T T""" VToast;
-           mkCol "e" "text" (VText "")]).
+           mkCol "e" "text" (VText "");
+           mkCol "flags" "bit(4)" (VBit "0101")]).
 
 Example C09_partial_nonvacuous :
-  WF ex_update = true /\ no_bit ex_update = true /\
+  WF ex_update = true /\
   print ex_update =
-    "table ""My Schema"".""user"": UPDATE: old-key: id[integer]:7 ""old-key""[text]:'k: ''v''' new-tuple: id[integer]:-7 ""a[1]: """"x""""""[""My]Type""[]]:'it''s ]: [x] ''q''''''' note[character varying]:null big[public.""T T""]:unchanged-toast-datum e[text]:''" /\
+    "table ""My Schema"".""user"": UPDATE: old-key: id[integer]:7 ""old-key""[text]:'k: ''v''' new-tuple: id[integer]:-7 ""a[1]: """"x""""""[""My]Type""[]]:'it''s ]: [x] ''q''''''' note[character varying]:null big[public.""T T""]:unchanged-toast-datum e[text]:'' flags[bit(4)]:B'0101'" /\
   parse_full (print ex_update) = Ok (expected ex_update) /\
   pr_old (expected ex_update) =
     [("id", mkCV "7" "integer" false); ("""old-key""", mkCV "k: 'v'" "text" true)].
